@@ -5,8 +5,11 @@ ibldsp.utils.make_channel_index on synthetic recordings whose value encodes
 import contextlib
 import hashlib
 import json
+import os
 import shutil
 import signal
+import subprocess
+import sys
 import warnings
 from fractions import Fraction
 from pathlib import Path
@@ -533,8 +536,10 @@ def gen_case(rng, cid, big=None):
         early = sorted({0, to // 2, to, max(0, to - 1)})
         spikes = [[t, 77, rng.choice([0, nc - 1])] for t in early] + spikes
         spikes.sort(key=lambda s: s[0])
+    # seed 0 is a seed like any other (`seed or ...` would lose it); 2**40 does not fit 32 bits
+    seed = [0, 1, 2 ** 40, rng.randrange(2, 10 ** 6), rng.randrange(2, 10 ** 6)][cid % 5]
     return {"id": cid, "ns": ns, "nc": nc, "geom": geom, "to": to, "L": L, "maxwf": maxwf, "spikes": spikes,
-            "seed": rng.randrange(1, 10 ** 6), "labels": labels, "indices": indices, "sizes": sizes,
+            "seed": seed, "labels": labels, "indices": indices, "sizes": sizes,
             "dt": dt, "strided": rng.random() < 0.3, "bin_str": rng.random() < 0.3,
             "lab_repr": rng.choice(["array", "list", "tuple", "int32"]),
             "ind_repr": rng.choice(["array", "list", "scalar", "npint"]),
@@ -784,6 +789,78 @@ def run_case(ctx, case, work, jobs_for, inputs, outputs, descs, stats):
     return nrun
 
 
+# ---- two sessions processed in turn from inside their folders (relative paths, os.chdir, workers) ----
+def child_sessions(spec_file):
+    """Runs in a child process (the harness' own cwd stays untouched): for each session, chdir into its
+    folder and extract with the paths as given (relative / absolute, Path / str); reports observations."""
+    spec = json.loads(Path(spec_file).read_text())
+    res, hashes = [], {}
+    for k, ses in enumerate(spec["sessions"]):
+        case = ses["case"]
+        folder = Path(spec["work"]) / ("session%d" % k)
+        folder.mkdir()
+        binf, data = make_recording(case, folder)
+        os.chdir(folder)
+        out = Path("wfs") if ses["out"] == "relative" else folder / "wfs"
+        b = {"relative": Path("rec.bin"), "relative_str": "rec.bin", "absolute": binf, "absolute_str": str(binf)}[ses["bin"]]
+        case = dict(case, bin_str=False)
+        obs = impl_extract(case, b, ses["size"], ses["n_jobs"], out)
+        r = {"inp": enc_inp(case, ses["size"], obs["picks"]), "bad": [], "error": obs.get("error")}
+        try:
+            r["out"] = enc_obs(obs)
+            if "error" not in obs:
+                r["bad"] = [[kind, what] for kind, what in oracle(case, obs, data)]
+        except Exception as e:  # noqa
+            r["out"], r["bad"] = [-998], [["malformed_output", err_text(e)]]
+        res.append(r)
+        if (folder / "wfs" / FILES[0]).exists():
+            hashes[k] = file_hashes(folder / "wfs")
+        for j, h in list(hashes.items()):        # earlier sessions' files must not change later on
+            d = Path(spec["work"]) / ("session%d" % j) / "wfs"
+            if j != k and file_hashes(d) != h:
+                r["bad"].append(["sessions", "processing session %d changed the output files of session %d" % (k, j)])
+                hashes[j] = file_hashes(d)
+    os.chdir(spec["work"])
+    kill_workers()
+    Path(spec["result"]).write_text(json.dumps(res))
+
+
+def run_session_pair(ctx, rng, work, cid0, layout, inputs, outputs, descs):
+    """Parent side: build the spec, run the child under a timeout, fold its report into the check."""
+    sessions = []
+    for j in range(2):
+        c = gen_case(rng, cid0 + j)
+        size = max(c["to"], 1, c["ns"] // 3)
+        c["sizes"] = [size]
+        sessions.append({"case": c, "size": size, "n_jobs": layout["n_jobs"], "out": layout["out"], "bin": layout["bin"][j]})
+    wd = Path(work) / ("pair%d" % cid0)
+    wd.mkdir()
+    spec = {"work": str(wd), "result": str(wd / "result.json"), "sessions": sessions}
+    (wd / "spec.json").write_text(json.dumps(spec))
+    desc = {"session_pair": layout, "sessions": [case_desc(s_["case"], s_["size"], s_["n_jobs"]) for s_ in sessions]}
+    try:
+        p = subprocess.run([sys.executable, "-c", "import sys, pC13; pC13.child_sessions(sys.argv[1])", str(wd / "spec.json")],
+                           stdout=subprocess.PIPE, stderr=subprocess.STDOUT, text=True, timeout=240, cwd=str(wd))
+        res = json.loads((wd / "result.json").read_text())
+    except Exception as e:  # noqa  crash / hang / segfault of the child: a verdict about the code, not a harness crash
+        tail = getattr(e, "stdout", None) or (p.stdout[-400:] if "p" in locals() and p.stdout else "")
+        ctx.fail("two sessions processed in turn: the child process failed (%s) %s" % (err_text(e), str(tail)[-300:]),
+                 desc, {"kind": "sessions"})
+        return 0
+    for k, r in enumerate(res):
+        d = dict(desc["sessions"][k], session_pair=layout, session=k)
+        if r["error"]:
+            ctx.fail("session %d of a pair (cwd changed in between, %s output_dir, n_jobs %d): extract_wfs_cbin raised %s"
+                     % (k, layout["out"], layout["n_jobs"], r["error"]), desc, {"kind": "sessions"})
+        for kind, what in r["bad"]:
+            ctx.fail("session %d of a pair (cwd changed in between, %s output_dir, n_jobs %d): %s"
+                     % (k, layout["out"], layout["n_jobs"], what), desc, {"kind": "sessions", "clause": kind})
+        inputs.append(r["inp"])
+        outputs.append(r["out"])
+        descs.append(d)
+    return len(res)
+
+
 def malformed_cases(rng, cid0):
     out = []
     for j in range(3):
@@ -865,6 +942,17 @@ def run(ctx):
             for i in range(before, len(inputs)):
                 if outputs[i][0] == 1 and outputs[i][2] >= 2 and -(-case["ns"] // descs[i]["size"]) >= 2:
                     nontrivial.add(json.dumps(descs[i], sort_keys=True))
+        # two sessions in turn, from inside their folders (child process; the harness cwd is untouched)
+        layouts = [{"out": "relative", "bin": ["relative", "relative_str"], "n_jobs": 2},
+                   {"out": "absolute", "bin": ["relative", "absolute_str"], "n_jobs": 3}]
+        if ctx.thorough():
+            layouts += [{"out": "relative", "bin": ["absolute", "relative"], "n_jobs": 4},
+                        {"out": "relative", "bin": ["relative", "relative"], "n_jobs": 1}]
+        npairs = 0
+        for j, lay in enumerate(layouts):
+            if not HUNG:
+                npairs += run_session_pair(ctx, rng, work, 9000 + 10 * j, lay, inputs, outputs, descs) > 0
+        stats["session_pairs"] = npairs
     finally:
         shutil.rmtree(work, ignore_errors=True)
         try:
@@ -924,7 +1012,7 @@ def run(ctx):
 
     common.correspondence(ctx, PROP, HEADER, inputs, outputs, lambda i: descs[i], n_kernel=24)
 
-    ex = [d for d in descs if "spikes" in d]
+    ex = [d for d in descs if "spikes" in d and "session_pair" not in d]
     samples = [{k: (v if k != "spikes" else v[:6]) for k, v in d.items() if k != "geom"} for d in ex[:: max(1, len(ex) // 5)]][:6]
     dist = {"extractions": nrun, "cases": len(cases), "n_jobs": {str(k): v for k, v in sorted(stats["n_jobs"].items())},
             "chunks_min": min(stats["chunks"] or [0]), "chunks_max": max(stats["chunks"] or [0]),
@@ -938,6 +1026,10 @@ def run(ctx):
             "extract_wfs_array_kinds": {k: sum(1 for c in arr_cases if c["kind"] == k) for k in ("valid", "assert", "wrap", "peak_out", "empty")},
             "extract_wfs_array_dtype_order_flag": dict(sorted(arr_stats.items())),
             "loader_calls_in_sequences_with_inplace_edits": stats["loader_calls"],
+            "session_pairs_with_chdir": stats.get("session_pairs", 0),
+            "seed_values": {"0": sum(1 for c in cases if c["seed"] == 0), "1": sum(1 for c in cases if c["seed"] == 1),
+                            "2**40": sum(1 for c in cases if c["seed"] == 2 ** 40),
+                            "None": sum(1 for c in cases if c["seed"] is None)},
             "out_of_domain_chunk_lt_trough_offset": sum(1 for c in cases if c.get("out_of_domain")),
             "out_of_domain_no_exception": stats.get("out_of_domain_no_exception", 0),
             "seed_none": sum(1 for c in cases if c["seed"] is None),
